@@ -1,5 +1,5 @@
 SPECIFICATION Spec
-CONSTANTS Gens = {2}  Flag = "surplus"  Generic = FALSE  Tm0 = TRUE  Nf0 = 45  Fund = 30  MaxBids = 2  MaxAuc = 1  MaxT = 420  Bidders = {"u1", "u2"}  Emit = FALSE
+CONSTANTS Gens = {2}  Flag = "surplus"  Generic = FALSE  Tm0 = TRUE  Esm = FALSE  Nf0 = 45  Fund = 30  MaxBids = 2  MaxAuc = 1  MaxT = 420  Bidders = {"u1", "u2"}  Emit = FALSE
 CONSTRAINT StateBound
 INVARIANTS InvCustodyCovers InvCustodyExact InvNetFeesNonNeg InvCollectorBacked InvOneAuction
 CHECK_DEADLOCK FALSE
